@@ -385,6 +385,36 @@ MapDelegate(x, id, ev) ==
             IN IF st.end THEN HandleTerminal(x1, "Map", ev1, id)
                ELSE Ack(ChangeState(x1, "Map", st.next, ev1), id)
 
+(* ---- Choice ------------------------------------------------------------------------ *)
+(* asl_state_Choice: the rules are tried in order, the first that holds names the next state, else Default, else *)
+(* States.NoChoiceMatched.  The rule language of the model: comparisons of the value at a path of member names    *)
+(* (eq / gt / lt / ge / le against a literal of the same type, present) combined with and / or / not -- the       *)
+(* typed core of spec/Choice.tla (Layer A decides the full operator table; what this layer adds is the protocol   *)
+(* around a data-dependent transition: which event is published, what the history says, when the trigger is       *)
+(* acknowledged, and what happens to a branch whose Choice matches nothing).                                      *)
+RECURSIVE Lookup(_, _), RuleHolds(_, _)
+Lookup(v, path) == IF path = <<>> THEN [ok |-> TRUE, v |-> v]
+                   ELSE IF Head(path) \in DOMAIN v THEN Lookup(v[Head(path)], Tail(path))
+                   ELSE [ok |-> FALSE, v |-> 0]
+RuleHolds(r, v) ==
+    CASE r.kind = "and" -> \A i \in 1..Len(r.subs) : RuleHolds(r.subs[i], v)
+      [] r.kind = "or"  -> \E i \in 1..Len(r.subs) : RuleHolds(r.subs[i], v)
+      [] r.kind = "not" -> ~RuleHolds(r.subs[1], v)
+      [] r.kind = "cmp" ->
+           LET l == Lookup(v, r.path)
+           IN CASE r.op = "present" -> l.ok = r.val
+                [] r.op = "eq" -> l.ok /\ l.v = r.val
+                [] r.op = "gt" -> l.ok /\ l.v > r.val
+                [] r.op = "lt" -> l.ok /\ l.v < r.val
+                [] r.op = "ge" -> l.ok /\ l.v >= r.val
+                [] r.op = "le" -> l.ok /\ l.v <= r.val
+ChoiceValue(d) == IF IsErr(d) THEN [Error |-> d.e] ELSE d.v
+ChoiceNext(st, d) ==
+    LET v == ChoiceValue(d)
+        hits == {i \in 1..Len(st.rules) : RuleHolds(st.rules[i], v)}
+    IN IF hits = {} THEN st.dflt
+       ELSE st.rules[CHOOSE i \in hits : \A j \in hits : i <= j].next
+
 (* ---- notify --------------------------------------------------------------------- *)
 StartExecution(x, ev) ==
     EmitAll(x, <<RecOp(ev.exec, "RUNNING", Data(<<>>)), HistOp(ev.exec, "ExecutionStarted"), NoteOp(ev.exec, "RUNNING")>>)
@@ -404,6 +434,10 @@ Notify(x, id, ev0, red) ==
                  LET ev1 == IF st.result.set THEN [ev EXCEPT !.data = Data(st.result.v)] ELSE ev
                  IN IF st.end THEN HandleTerminal(x2, "Pass", ev1, id)
                     ELSE Ack(ChangeState(x2, "Pass", st.next, ev1), id)
+            [] st.type = "Choice" ->
+                 LET nx == ChoiceNext(st, ev.data)
+                 IN IF nx # "" THEN Ack(ChangeState(x2, "Choice", nx, ev), id)
+                    ELSE Ack(HandleError(x2, name, ev, "States.NoChoiceMatched", id), id)
             [] st.type = "Succeed" -> HandleTerminal(x2, "Succeed", ev, id)
             [] st.type = "Fail" -> HandleTerminal(x2, "Fail", [ev EXCEPT !.data = ErrData(st.error)], id)
             [] st.type = "Wait" ->
@@ -646,8 +680,26 @@ Eval(name, v) ==
                  [] st.type = "Parallel" -> [k \in 1..Len(st.branches) |-> Eval(st.branches[k], v)]
                  [] st.type = "Map" -> [k \in 1..Len(v) |-> Eval(st.proc, v[k])]
                  [] OTHER -> v
-    IN IF st.end \/ st.type = "Succeed" THEN out ELSE Eval(st.next, out)
+        nx == IF st.type = "Choice" THEN ChoiceNext(st, Data(v)) ELSE st.next
+    IN IF st.end \/ st.type = "Succeed" \/ nx = "" THEN out ELSE Eval(nx, out)
+(* the machine itself can fail on this input without any task failing: a Fail state, or a Choice that matches nothing *)
+RECURSIVE MayFail(_, _)
+MayFail(name, v) ==
+    LET st == Def[name]
+        here == CASE st.type = "Fail" -> TRUE
+                  [] st.type = "Choice" -> ChoiceNext(st, Data(v)) = ""
+                  [] st.type = "Parallel" -> \E k \in 1..Len(st.branches) : MayFail(st.branches[k], v)
+                  [] st.type = "Map" -> \E k \in 1..Len(v) : MayFail(st.proc, v[k])
+                  [] OTHER -> FALSE
+        out == CASE st.type = "Pass" -> (IF st.result.set THEN st.result.v ELSE v)
+                 [] st.type = "Task" -> [fn |-> st.fn, in |-> v]
+                 [] st.type = "Parallel" -> [k \in 1..Len(st.branches) |-> Eval(st.branches[k], v)]
+                 [] st.type = "Map" -> [k \in 1..Len(v) |-> Eval(st.proc, v[k])]
+                 [] OTHER -> v
+        nx == IF st.type = "Choice" THEN ChoiceNext(st, Data(v)) ELSE st.next
+    IN here \/ (~(st.end \/ st.type = "Succeed") /\ MayFail(nx, out))
 AllOK == \A f \in Fns : \A n \in 1..Len(Outcomes[f]) : Outcomes[f][n] = "ok"
-JoinPositional == AllOK => \A k \in Execs : rec[k].status = "SUCCEEDED" => rec[k].out = Data(Eval(StartAt, Inputs[k]))
+JoinPositional == AllOK => \A k \in Execs : (rec[k].status = "SUCCEEDED" /\ ~MayFail(StartAt, Inputs[k]))
+                                                => rec[k].out = Data(Eval(StartAt, Inputs[k]))
 EventuallyDone == <>[]AllDone
 =============================================================================
